@@ -19,10 +19,14 @@ P = {
          "u32 additions assumed not to overflow (values < 2^32-1)."),
  "C06": ("Theorems (by computation over the generated enumerations): keyword maps unambiguous, upper-case, within the declared maximal length, macro keywords inside the call/statement subset, ASCII rows of the Unicode predicates equal their closed forms, delimiters are not identifier characters. Per-type shapes of DESIGN.md §6.1 are tested on every token of every input.",
          "partial: shapes are tested, tables proved; keyword spelling judged against maps executed from the built crate."),
+ "C07": ("Theorem C07_hex_string_decoding (no axioms, all inputs): the hex-string decoder accepts exactly bodies that, commas removed, are an even number of hex digits and returns the byte values of the pairs (Latin-1). Partition of the literal buffer by the payload ranges and payload = unquoted token text are tested on every token of every input by an independent unquoting oracle, with a dedicated escape-placement stream.",
+         "partial: content/partition tested, decoder proved."),
  "C09": ("Theorem C09_error_offsets (no axioms, unconditional): every error offset is a prefix position within the text with the matching character offset. last_token anchoring, source order and the missing-symbol/virtual-token pairing are tested by the oracle and monitored in the model run (no error survives a rollback).",
          "partial."),
  "C10": ("Theorems (by computation): every argument-taking built-in pre-loads 'skip ws/comments, expect ( on its channel' on top and 'expect )' at the bottom; every macro keyword has a dispatch arm; ';'-terminated statements pre-load the ';' expectation. Balance of string expressions, datalines triples, label colons over all inputs (incl. every truncation of a sample program) is tested by the oracle.",
          "partial."),
+ "C14": ("Theorems (no axioms): the constructs of the C14 list pre-load an expectation mode for their mandatory delimiter; in an ExpectSymbol expectation with a different next character (or at end of input) the lexer records the matching MissingExpected error at the current position, adds a zero-width token of the expected type/channel and pops the mode (all states, release profile; debug via C19). Every single-delimiter deletion in sampled grammar programs is tested for exactly this error and token at the expected offset.",
+         "partial: grammar-wide statement tested; the recovery step and pre-loads proved."),
  "C16": ("Theorems (no axioms, all inputs): keyword lookup after upper-casing, the macro keyword scanner, the statement look-ahead and the mnemonic recogniser are invariant under ASCII case change. Whole-lexer invariance is tested on random/extreme variants of every input and all (or sampled) 2^n variants of keyword/mnemonic/suffix templates.",
          "partial: whole-lexer statement tested, helpers proved."),
  "C17": ("Theorem C17_bom_transparent (no axioms): for every source not starting with U+FEFF, if the plain run returns within budget with the loop detector silent, the run on BOM+source returns the same tokens/lines/literals/errors shifted by (3 bytes, 1 char). Tie: plain and marked inputs through model and implementation, plus the direct pairwise oracle.",
